@@ -13,7 +13,11 @@
 (* distinct as soon as anything - including the type of a constant -       *)
 (* differs (C05_Keys!KeyOf("ideal", ..)).                                  *)
 (*                                                                         *)
-(* Actions (one per observable event of an instrumented mapper):           *)
+(* The state is one record ms (so that the same machine can be run from    *)
+(* TLC actions over a variable, C05_MemoSM, and folded over a whole event  *)
+(* list inside one TLC step, RunEvents below).                             *)
+(* Actions (one per observable event of an instrumented mapper; guard and  *)
+(* effect operators here, the TLA+ actions themselves in C05_MemoSM):      *)
 (*   HandlerInvoked(k)      a map_* handler starts for k.  Enabled iff the *)
 (*                          handler of k has not completed before:         *)
 (*                          "computed at most once per instance".          *)
@@ -31,7 +35,7 @@
 (* The guards are separate operators so that the trace specification       *)
 (* (C05_Judge) can name the clause a recorded event contradicts instead of *)
 (* just getting stuck, and so that the A-layer (C05_MemoImpl) can be run   *)
-(* against the same machine inside one TLC step (Accepts).                 *)
+(* against the same machine inside one TLC step (RunEvents).               *)
 (***************************************************************************)
 EXTENDS C05_Fresh
 
